@@ -189,6 +189,29 @@ Section Loops.
     end.
 End Loops.
 
+(* a scalar pushed into a leaf builder (what `push` does for scalars); used for the bytes of a
+   `serialize_bytes` call on a list column, which are pushed one by one as u8 into the child *)
+Definition push_scalar (v : Value) (b : Builder) : Outcome Builder :=
+  match b with
+  | BdBool val vals len =>
+    match v with
+    | VBool x => do val' <- set_validity val len true ;; Ok (BdBool val' (set_bit vals len x) (S len))
+    | _ => Err
+    end
+  | BdPrim k val vals =>
+    do z <- prim_value k v ;;
+    do val' <- set_validity val (length vals) true ;; Ok (BdPrim k val' (vals ++ [z]))
+  | BdUtf8 k val offs data =>
+    match text_of_scalar v with
+    | IOk (LBytes s) =>
+      do val' <- set_validity val (length offs - 1) true ;;
+      do offs' <- increment_last (is_wide k) (duplicate_last offs) (length s) ;;
+      Ok (BdUtf8 k val' offs' (data ++ s))
+    | _ => Err
+    end
+  | _ => Err
+  end.
+
 Fixpoint push (v : Value) (b : Builder) {struct v} : Outcome Builder :=
   match v with
   | VNone | VUnit => push_none b
@@ -217,6 +240,10 @@ Fixpoint push (v : Value) (b : Builder) {struct v} : Outcome Builder :=
       | VSeq l | VTuple l | VTupleStruct l =>
         do val' <- set_validity val (length offs - 1) true ;;
         do oe <- list_loop push (list_wide k) l (duplicate_last offs) e ;;
+        Ok (BdList k val' (fst oe) m (snd oe))
+      | VBytes s =>
+        do val' <- set_validity val (length offs - 1) true ;;
+        do oe <- list_loop push_scalar (list_wide k) (map (fun c => VInt U8 (Z.of_N c)) s) (duplicate_last offs) e ;;
         Ok (BdList k val' (fst oe) m (snd oe))
       | _ => Err
       end
